@@ -37,7 +37,8 @@ type ManSpec struct {
 	// Pad adds an annotation of this many bytes (to straddle size thresholds).
 	Pad int `json:"pad,omitempty"`
 	// BadDesc, when > 0, makes the descriptor of the first reference untruthful:
-	// 1 = empty media type, 2 = malformed digest, 3 = size 0 with non-empty digest.
+	// 1 = empty media type, 2 = malformed digest, 3 = size 0 with non-empty digest,
+	// 4 = (index only) the first child is described as an OCI image manifest whatever it really is.
 	BadDesc int `json:"bad_desc,omitempty"`
 }
 
@@ -199,10 +200,14 @@ func (u *Universe) ManBytes(i int) []byte {
 				ix.Manifests = append(ix.Manifests, u.manDesc(c))
 			}
 		}
-		if m.BadDesc > 0 && len(ix.Manifests) > 0 {
+		if m.BadDesc == 4 && len(ix.Manifests) > 0 {
+			ix.Manifests[0].MediaType = MTImage
+		} else if m.BadDesc > 0 && len(ix.Manifests) > 0 {
 			spoil(&ix.Manifests[0], m.BadDesc)
 		}
 		data, _ = json.Marshal(ix)
+	case "opaquebin":
+		data = []byte(fmt.Sprintf("\x00\xffnot json at all, salt %d", m.Salt))
 	case "badjson":
 		data = []byte(fmt.Sprintf(`{"schemaVersion":2,"salt":%d,`, m.Salt))
 	case "wrongshape":
